@@ -69,6 +69,12 @@ def run_case(case):
             if tfp and t in TEMPORAL_FMT and rng.random() < 0.7:
                 fd['outputFormat'] = rng.choice(TEMPORAL_FMT[t])
             fields.append(fd)
+        rng_x = boot.rng(case['seed'], 'C03', 'extra', case['idx'], r)
+        if rng_x.random() < 0.06:
+            # a field name with leading / trailing blanks is a name like any other
+            fields[0]['name'] = rng_x.choice([fields[0]['name'] + ' ', ' ' + fields[0]['name']])
+            cov['config']['field_name_with_outer_blank'] = 1
+        long_cell = rng_x.random() < 0.04 and any(fd['type'] == 'string' for fd in fields)
         pk = None
         if rng.random() < 0.4:
             fields.insert(rng.randrange(len(fields) + 1), {'name': 'rowid', 'type': 'integer'})
@@ -96,6 +102,11 @@ def run_case(case):
                 rng.shuffle(items)
                 row = dict(items)
             rows.append(row)
+        if long_cell and rows:
+            # a cell longer than python's default csv field size limit (131072)
+            fn_ = next(fd['name'] for fd in fields if fd['type'] == 'string')
+            rows[0][fn_] = 'long-' + 'x' * 140000
+            cov['config']['cell_longer_than_131072'] = 1
         for k in tcov:
             cov['type_class_fmt'][k] = 1
         missing = None
@@ -140,7 +151,19 @@ def run_case(case):
     dumped = lab.run(steps, validate=True)
     sample = {'config': cfg, 'rows': gen.render(res[0]['rows'][:3], 600)}
 
+    blank_names = [fd['name'] for r in res for fd in r['fields'] if fd['name'] != fd['name'].strip()]
+
     def add(kind_, msg, mech):
+        if blank_names and mech.startswith(('load_failed/CastError', 'load/row_keys')):
+            # the reader underneath load() strips header cells / object keys: explained exactly when the names it reports
+            # are the schema's names without their outer blanks
+            if kind_ == 'load_failed' and "don't match schema field names" in msg and \
+                    any(repr([fd['name'].strip() for fd in r['fields']]) in msg for r in res):
+                mech = 'field_name_outer_blank_stripped'
+            elif kind_ == 'row_keys' and any(repr(sorted([fd['name'] for fd in r['fields']] +
+                                                         [n.strip() for n in blank_names
+                                                          if n in [fd['name'] for fd in r['fields']]])) in msg for r in res):
+                mech = 'field_name_outer_blank_stripped'
         viol.append({'kind': kind_, 'mech': mech, 'format': fmt, 'msg': msg, 'config': cfg})
     if not dumped.ok:
         add('dump_failed', '%r: dumping failed: %s' % (cfg, dumped.errstr()), 'dump/' + fmt)
